@@ -37,13 +37,16 @@ EXPLANATION = (
     "(get_nodes and the other functions that accept a path as string or list of levels) more than once - every sibling of a wildcard "
     "level, every iteration of a loop - is not edited in place by that resolver (mutation summaries of the effect analysis: pop / del / "
     "remove / insert / slice assignment on the parameter, an alias of it or in a callee), otherwise later siblings resolve a shortened "
-    "path.  NOT decided: that get_nodes enumerates wildcards in declaration "
+    "path.  R7 in the path resolvers and the methods they delegate to, a container that outlives one loop iteration and is both filled "
+    "and consulted inside the loop (a memo of per-node decisions) is keyed by the loop element, by values built from loop variables or "
+    "by the identity of the object looked up for the element - never by an attribute of that object (template .name/.path are not "
+    "unique per node) or by a loop-invariant value.  NOT decided: that get_nodes enumerates wildcards in declaration "
     "order for every hierarchy (dict insertion order, library guarantee), the numerical values, what the backend does with the index."
 )
 RULE_TEXT = ("R1: one obligation per sink (call of get_nodes/_get_var_idx resolved through the call graph, subscript of the index "
              "table), sources = call sites of _relabel_var (every call spelt like a source/sink must have been resolved to it); R2: one "
              "obligation per label append + frame assembly, in run() or in the helper run() delegates the assembly to; R3: three "
-             "obligations per (index, backend key) entry; R6: one obligation per call site of a path resolver and one per resolver.  Non-trivial = decided by def-use/taint, path pairing or value identity.")
+             "obligations per (index, backend key) entry; R6: one obligation per call site of a path resolver and one per resolver; R7: one per outermost loop of a resolver / per memo.  Non-trivial = decided by def-use/taint, path pairing or value identity.")
 ASSUMPTIONS = [
     "Values returned by functions outside pyrates/frontend/template/circuit.py carry no backend label derived from _relabel_var "
     "(the taint analysis is inter-procedural only inside that module, through return summaries; parameters are assumed clean).",
@@ -1458,6 +1461,161 @@ def r6_identifier_not_consumed(ctx, rid):
         # else: reported at the call sites above
 
 
+# --------------------------------------------------------------------------------------------
+# R7 — what a resolver decides for one node is not reused for another node
+# --------------------------------------------------------------------------------------------
+
+def _resolver_closure(ctx):
+    """The path resolvers and the methods of the same class they delegate the per-node work to (call graph, two levels)."""
+    roots = list(_path_resolvers(ctx))
+    out = list(roots)
+    frontier = roots
+    for _ in range(2):
+        nxt = []
+        for f in frontier:
+            for t in ctx.cg.callees(f):
+                if t not in out and getattr(t.module, "rel", None) == REL and t.cls is not None and f.cls is not None \
+                        and t.cls.name == f.cls.name:
+                    out.append(t)
+                    nxt.append(t)
+        frontier = nxt
+    return out
+
+
+def r7_per_node_decision_not_shared(ctx, rid):
+    """A resolver walks over node keys and decides for each of them (does it exist, does it carry op/var, ...).  A container that
+    outlives one iteration and is both written and consulted inside the loop is a memo: the decision taken for one element is
+    reused for another.  That is only sound when the memo key identifies the node - the element itself (its key / path), something
+    built only from loop variables, or the identity of the object looked up for it - never a descriptive attribute of that object
+    (`.name`, `.path`, ...): node templates are shared and copied, so such attributes coincide for different nodes and the answer
+    of the first one (in declaration order) would decide for the others."""
+    n_loops = 0
+    for f in _resolver_closure(ctx):
+        rd = ctx.rd(f)
+        loops = [n for n in walk_shallow(f.node) if isinstance(n, (ast.For, ast.AsyncFor))]
+        for loop in ordered(loops):
+            if any(isinstance(a, (ast.For, ast.AsyncFor, ast.While)) for a in ancestors(loop) if contains(f.node, a) and a is not f.node):
+                continue          # inner loops are covered with their outermost loop
+            n_loops += 1
+
+            def inside(n):
+                return any(contains(b, n) for b in loop.body)
+
+            def outlives(cont) -> bool:
+                """the container object exists before the loop starts (local defined outside, attribute, parameter)"""
+                base = cont
+                while isinstance(base, (ast.Attribute, ast.Subscript)):
+                    base = base.value
+                if not isinstance(base, ast.Name) or comp_generator_of(base) is not None:
+                    return False
+                if isinstance(cont, ast.Attribute):
+                    return True
+                defs = rd.defs_reaching(base)
+                return bool(defs) and any(isinstance(d, ast.arguments) or not inside(d) and d is not loop for d in defs)
+            uses: Dict[str, Dict[str, list]] = {}       # container text -> {"read": [(key, node)], "write": [...]}
+
+            def note(cont, kind, key, node):
+                if isinstance(cont, (ast.Name, ast.Attribute)) and outlives(cont):
+                    uses.setdefault(ast.unparse(cont), {"read": [], "write": []})[kind].append((key, node))
+            for b in loop.body:
+                for n in ast.walk(b):
+                    if isinstance(n, ast.Subscript) and not isinstance(n.slice, ast.Slice):
+                        note(n.value, "write" if isinstance(n.ctx, (ast.Store, ast.Del)) else "read", n.slice, n)
+                    elif isinstance(n, ast.Compare) and len(n.ops) == 1 and isinstance(n.ops[0], (ast.In, ast.NotIn)):
+                        note(n.comparators[0], "read", n.left, n)
+                    elif isinstance(n, ast.Call) and isinstance(n.func, ast.Attribute) and n.args:
+                        if n.func.attr in ("add", "append", "setdefault", "insert"):
+                            note(n.func.value, "write", n.args[-1] if n.func.attr == "insert" else n.args[0], n)
+                        if n.func.attr in ("get", "setdefault", "pop", "index", "count"):
+                            note(n.func.value, "read", n.args[0], n)
+            memos = {c: u for c, u in uses.items() if u["read"] and u["write"]}
+            label0 = f"loop {norm(loop)}"
+            if not memos:
+                ctx.ok(rid, f, loop, "nothing decided for one element is kept for later elements: every node is examined itself",
+                       label=f"{label0}: per-node decision", nontrivial=False)
+                continue
+            loop_vars = set(target_names(loop.target))
+            for b in loop.body:
+                for n in ast.walk(b):
+                    if isinstance(n, (ast.For, ast.AsyncFor)):
+                        loop_vars |= set(target_names(n.target))
+            for cont, u in sorted(memos.items()):
+                verdicts = []
+                for key, node in u["read"] + u["write"]:
+                    verdicts.append((_memo_key_kind(ctx, f, loop, loop_vars, key), key, node))
+                bad = [v for v in verdicts if v[0][0] in ("attribute", "invariant")]
+                unknown = [v for v in verdicts if v[0][0] == "unknown"]
+                label = f"{label0}: memo {cont}"
+                if bad:
+                    (kind_, what), key, node = bad[0]
+                    if kind_ == "invariant":
+                        what = what + " (the key is the same for every element)"
+                    ctx.violation(rid, f, node, f"`{cont}` outlives one iteration of `{norm(loop)}` and is consulted and filled under the key "
+                                                f"`{norm(key)}`, i.e. under {what}: that is a description of the node's template, not the "
+                                                f"node - templates are shared, copied and may carry the same name/path for different nodes - "
+                                                f"so what was decided for the first such node (in declaration order) is reused for the "
+                                                f"others and the path resolves to another node set than the one it denotes",
+                                  {"keys": sorted({norm(k) for _, k, _ in verdicts})}, label=label)
+                elif unknown:
+                    raise AnalysisError(f"{rid}: cannot tell what the key `{norm(unknown[0][1])}` of `{cont}` in {f.qualname} identifies "
+                                        f"(unrecognised form)")
+                else:
+                    ctx.ok(rid, f, loop, f"`{cont}` is keyed by the element / its identity ({sorted({v[0][1] for v in verdicts})})",
+                           {"keys": sorted({norm(k) for _, k, _ in verdicts})}, label=label)
+    ctx.require(n_loops >= 2, f"{rid}: only {n_loops} loops found in the path resolvers (a rule that matches nothing would pass vacuously)")
+
+
+def _memo_key_kind(ctx, f, loop, loop_vars, key, depth: int = 4):
+    """('element', why) - built from loop variables only; ('identity', why) - id(obj) / the object looked up for the element;
+    ('attribute', why) - reads an attribute (or a derived property) of such an object; ('unknown', '')."""
+    e = key
+    if isinstance(e, ast.Name) and e.id not in loop_vars and comp_generator_of(e) is None and depth > 0:
+        defs = ctx.rd(f).defs_reaching(e)
+        if defs and all(isinstance(d, ast.arguments) or not (d is loop or contains(loop, d)) for d in defs):
+            return ("invariant", "a value that does not change during the loop")
+        if len(defs) == 1 and not isinstance(defs[0], ast.arguments) and any(contains(b, defs[0]) for b in loop.body):
+            v = assigned_value(defs[0], e.id)
+            if v is not None:
+                if isinstance(v, ast.Call) and not (isinstance(v.func, ast.Name) and v.func.id in ("str", "tuple", "id", "repr")) \
+                        and not (isinstance(v.func, ast.Attribute) and isinstance(v.func.value, ast.Constant)):
+                    # an object obtained for this element (template look-up, ...): used as a key it stands for its identity
+                    names = {n.id for n in ast.walk(v) if isinstance(n, ast.Name)}
+                    if names & loop_vars:
+                        return ("identity", f"the object `{norm(v)}` itself")
+                    return ("unknown", "")
+                return _memo_key_kind(ctx, f, loop, loop_vars, v, depth - 1)
+        return ("unknown", "")
+    if isinstance(e, ast.Call) and isinstance(e.func, ast.Name) and e.func.id == "id" and len(e.args) == 1:
+        return ("identity", f"id({norm(e.args[0])})")
+    # attributes: `obj.attr` (not the method of a literal like "/".join)
+    for n in ast.walk(e):
+        if isinstance(n, ast.Attribute) and not isinstance(n.value, ast.Constant):
+            par = parent(n)
+            if isinstance(par, ast.Call) and par.func is n and isinstance(n.value, ast.Name) and n.value.id in loop_vars:
+                continue          # method of the element itself (`n.split('/')`, `n.lower()`)
+            return ("attribute", f"the attribute `{norm(n)}`")
+    names = [n for n in ast.walk(e) if isinstance(n, ast.Name) and isinstance(n.ctx, ast.Load)]
+    kinds = []
+    for n in names:
+        if n.id in loop_vars or comp_generator_of(n) is not None:
+            kinds.append("element")
+        elif n.id in ("str", "tuple", "repr", "len", "int", "id"):
+            continue
+        else:
+            sub = _memo_key_kind(ctx, f, loop, loop_vars, n, depth - 1) if depth > 0 else ("unknown", "")
+            if sub[0] in ("attribute", "unknown"):
+                return sub
+            kinds.append(sub[0])
+    if kinds and all(k == "invariant" for k in kinds):
+        return ("invariant", "values that do not change during the loop")
+    kinds = [k for k in kinds if k != "invariant"]
+    if kinds and all(k == "element" for k in kinds):
+        return ("element", "the loop element")
+    if kinds:
+        return ("identity", "the element / the object looked up for it")
+    return ("unknown", "")
+
+
 RULES = [
     ("C06-R1", r1_namespaces, 11),     # 22 on the pinned tree; merging duplicated look-ups into helpers lowers the count
     ("C06-R2", r2_label_data_lockstep, 4),
@@ -1465,4 +1623,5 @@ RULES = [
     ("C06-R4", r4_positions_inside_backend_variable, 2),      # one per get_variable_positions call in run() (2 today) + 1
     ("C06-R5", r5_index_lists_applied, 2),
     ("C06-R6", r6_identifier_not_consumed, 7),      # one per resolver (3 today) + one per call site (18 today, require >= 6)
+    ("C06-R7", r7_per_node_decision_not_shared, 2),      # one per outermost loop of the resolver closure (+ one per memo)
 ]
